@@ -51,7 +51,7 @@ fn one(v: &Value, seed: u64, id: u64) -> Value {
     // (registry, expectation text) pairs to try; all must agree with the documented meaning
     let alias = pick(seed, id * 7 + 3, 2) == 1;
     let variants: Vec<(&str, String)> = match kind {
-        "regex" => vec![("default", format!("{expr} ({})", if alias { "re" } else { "regex" })), ("cram", format!("{expr} (re)"))],
+        "regex" | "regex_anch" => vec![("default", format!("{expr} ({})", if alias { "re" } else { "regex" })), ("cram", format!("{expr} (re)"))],
         "glob" => vec![("default", format!("{expr} ({})", if alias { "gl" } else { "glob" })), ("cram", format!("{expr} (glob)"))],
         "cramglob" => vec![("cram", format!("{expr} (glob)"))],
         "escaped" => vec![("default", format!("{expr} ({})", if alias { "esc" } else { "escaped" }))],
